@@ -287,6 +287,31 @@ func caseC16Res(c *Ctx, n int) {
 			}
 		}
 	}
+	// what a type is registered as on the resource side says nothing about the component side: a relation type that
+	// is (also) a resource type still counts as a relation when it becomes a component - in this world and in worlds
+	// created later in the same process
+	if !s.Failed() {
+		for _, k := range []string{"R0", "R1", "X9901", "S0", "N0"} {
+			if len(ecs.ResourceIDs(&w)) < limit {
+				ecs.ResourceTypeID(&w, TypeOfKey(k))
+			}
+			for _, cw := range []*ecs.World{&w, {}} {
+				if cw != &w {
+					nw := ecs.NewWorld()
+					cw = &nw
+				}
+				if len(ecs.ComponentIDs(cw)) >= limit {
+					continue
+				}
+				id := ecs.TypeID(cw, TypeOfKey(k))
+				info, ok := ecs.ComponentInfo(cw, id)
+				if !ok || info.IsRelation != KeyIsRel(k) {
+					s.fail("registry.relation", "type %v, also registered as a resource type: as a component IsRelation=%v, by its shape it must be %v", TypeOfKey(k), info.IsRelation, KeyIsRel(k))
+				}
+			}
+		}
+		s.Cov.N["relation_types_as_resources"]++
+	}
 	// every resource ID is usable: add / get / has / remove on lowest, highest and a few others
 	if !s.Failed() && n > 0 {
 		for _, i := range uniq([]int{0, n - 1, n / 2, c.R.Intn(n), c.R.Intn(n)}) {
